@@ -104,7 +104,14 @@ def scen_repeat(env, variant, count, nev, presched=False, stop_timeout=None):
     circ = fresh_circuit()
     loopref = []
     clock = lambda: loopref[0].time()
-    p = Probe('p', clock=clock)
+    outs = []           # the Repeat block's output at the moment of every delivery
+
+    class OProbe(Probe):
+        def _event(self, etype, data):
+            blk = circ.findblock(data['source']) if isinstance(data.get('source'), str) else None
+            outs.append(getattr(blk, 'output', None))
+            return super()._event(etype, data)
+    p = OProbe('p', clock=clock)
     iv = env.real('interval', 0, 100, lo_open=True)
     if variant == 'explicit':
         kw = {} if stop_timeout is None else {'stop_timeout': stop_timeout}   # 0 = 'disables the stop_async()'
@@ -185,6 +192,18 @@ def scen_repeat(env, variant, count, nev, presched=False, stop_timeout=None):
     if got:
         # output = last repeat number (observed before the stop)
         env.check('output-last', r.output == got[-1][2], info=lambda: (r.output, got[-1]))
+    # ... at every delivery, repetitions included: the output already shows the number the delivery carries
+    env.check('output-at-delivery', outs == [n for _, _, n in got], info=lambda: (outs, got))
+    # repetitions carry exactly the items of the forwarded original (only the number differs)
+    first = {}
+    same = True
+    for t, et, d in p.log:
+        items = {k: v for k, v in d.items() if k != 'repeat'}
+        if d['repeat'] == 0:
+            first[d['value']] = items
+        else:
+            same = same and first.get(d['value']) == items
+    env.check('data-items', same, info=lambda: p.log)
 
 
 def scen_chain(env, c1, c2):
